@@ -255,12 +255,21 @@ def run_tlc(
     res = TLCResult(ok=False)
     outf = os.path.join(meta, "stdout.txt")
     try:
-        with open(outf, "w") as fd:
-            try:
-                proc = subprocess.run(cmd, cwd=cwd or spec_dir, env=e, stdout=fd, stderr=subprocess.STDOUT, timeout=timeout)
-                rc = proc.returncode
-            except subprocess.TimeoutExpired:
+        for attempt in range(3):
+            with open(outf, "w") as fd:
+                proc = subprocess.Popen(cmd, cwd=cwd or spec_dir, env=e, stdout=fd, stderr=subprocess.STDOUT)
+                stalled = _wait_watching(proc, outf, timeout)
+            rc = proc.returncode if proc.returncode is not None else -1
+            if stalled == "timeout":
                 res.error = "timeout after %ss" % timeout
+                rc = -1
+                break
+            if stalled != "stalled":
+                break
+            # TLC 1.8 has (rarely) been seen to stop making progress with all workers idle ("0 s/min" for minutes, no CPU use):
+            # a hung model checker is a machinery problem, never a verdict - kill it and start the same job again
+            if attempt == 2:
+                res.error = "TLC stalled three times (no progress, no CPU)"
                 rc = -1
         kept: list[str] = []
         with open(outf, errors="replace") as fd:
@@ -365,6 +374,50 @@ def sany(module_path: str) -> tuple[bool, str]:
 def write_json(path: str, obj: Any) -> None:
     with open(path, "w") as fd:
         json.dump(obj, fd, separators=(",", ":"))
+
+
+_STALL = re.compile(r"^Progress\(\d+\).*\(0 s/min\)")
+
+
+def _wait_watching(proc: "subprocess.Popen", outf: str, timeout: float | None) -> str:
+    """Wait for TLC; returns "done", "timeout", or "stalled" (two consecutive progress reports without a single new state)."""
+    t0 = time.time()
+    cpu_hist: list[tuple[float, float]] = []
+
+    def cpu_seconds() -> float:
+        try:
+            with open("/proc/%d/stat" % proc.pid) as fd:
+                f = fd.read().rsplit(")", 1)[1].split()
+            return (int(f[11]) + int(f[12])) / float(os.sysconf("SC_CLK_TCK"))
+        except Exception:
+            return -1.0
+
+    while True:
+        try:
+            proc.wait(timeout=15)
+            return "done"
+        except subprocess.TimeoutExpired:
+            pass
+        cpu_hist.append((time.time(), cpu_seconds()))
+        cpu_hist[:] = cpu_hist[-8:]
+        if timeout is not None and time.time() - t0 > timeout:
+            proc.kill()
+            proc.wait()
+            return "timeout"
+        try:
+            with open(outf, "rb") as fd:
+                fd.seek(0, 2)
+                size = fd.tell()
+                fd.seek(max(0, size - 4000))
+                tail = fd.read().decode(errors="replace").splitlines()
+        except OSError:
+            continue
+        prog = [ln for ln in tail if ln.startswith("Progress(")]
+        idle = len(cpu_hist) >= 6 and cpu_hist[-1][1] >= 0 and cpu_hist[-1][1] - cpu_hist[-6][1] < 2.0    # < 2 CPU-seconds in ~75 s
+        if idle and len(prog) >= 2 and _STALL.match(prog[-1]) and _STALL.match(prog[-2]) and not any("Checking temporal" in ln for ln in tail[-3:]):
+            proc.kill()
+            proc.wait()
+            return "stalled"
 
 
 def run_many(jobs: list[dict], parallel: int = 6) -> list[TLCResult]:
